@@ -107,9 +107,12 @@ Record P1Spec (o : oracle) (h w : nat) (u : mark) (old nw : grid cell) (M : grid
   sp_new : forall r1 c1 y r c, gget nw r1 c1 = Some y -> shown o nw y r1 c1 = true ->
            ext_covers o y r1 c1 r c = true -> r < h -> c < w ->
            gget M r c = Some MIgnored \/ (gget M r c = Some MDamaged /\ dec r1 c1 = true);
-  (* the column behind a hidden wide character is repainted *)
-  sp_hid : forall r1 c1 y, gget nw r1 c1 = Some y -> is_wide o y = true -> hidden o nw r1 c1 = true ->
-           S c1 < w -> gget M r1 (S c1) = Some MDamaged;
+  (* the column behind a hidden wide character is repainted when the character covering it was *)
+  sp_hid : forall r1 c0 y, gget nw r1 (S c0) = Some y -> is_wide o y = true -> hidden o nw r1 (S c0) = true ->
+           dec r1 c0 = true -> S (S c0) < w -> gget M r1 (S (S c0)) = Some MDamaged;
+  (* a character cell that is Damaged was treated as changed *)
+  sp_dmg : forall r c y ch, gget nw r c = Some y -> ckind y = KChar ch -> gget M r c = Some MDamaged ->
+           dec r c = true;
   sp_old : forall r1 c1 y r c, gget old r1 c1 = Some y -> dec r1 c1 = true ->
            ext_covers o y r1 c1 r c = true -> r < h -> c < w ->
            (forall r2 c2 z, gget nw r2 c2 = Some z -> shown o nw z r2 c2 = true ->
@@ -145,6 +148,7 @@ Arguments sp_dec {o h w u old nw M dec cmds imgs}.
 Arguments sp_ign {o h w u old nw M dec cmds imgs}.
 Arguments sp_new {o h w u old nw M dec cmds imgs}.
 Arguments sp_hid {o h w u old nw M dec cmds imgs}.
+Arguments sp_dmg {o h w u old nw M dec cmds imgs}.
 Arguments sp_old {o h w u old nw M dec cmds imgs}.
 Arguments sp_forced {o h w u old nw M dec cmds imgs}.
 Arguments sp_cmds {o h w u old nw M dec cmds imgs}.
@@ -297,18 +301,34 @@ Section Analysis.
     hidden o old r c = true -> hidden o nw r c = false -> cover_img o h w nw r c = None ->
     gget M r c = Some MDamaged.
   Proof.
-    intros r c Hr Hc Hho Hhn Hcov.
+    intros r c. induction c as [c IH] using lt_wf_ind. intros Hr Hc Hho Hhn Hcov.
     destruct c as [|c0]; [discriminate|]. simpl in Hho.
     destruct (gget old r c0) as [yo|] eqn:Eyo; [|discriminate].
-    apply andb_true_iff in Hho. destruct Hho as [Hwo Hho].
+    apply andb_true_iff in Hho. destruct Hho as [Hwo Hho]. apply negb_true_iff in Hho.
+    destruct (is_wide_char o yo Hwo) as (ch & Hk & Hw2).
     destruct (dec r c0) eqn:Ed.
-    - destruct (is_wide_char o yo Hwo) as (ch & Hk & Hw2).
-      apply (sp_old HP r c0 yo r (S c0) Eyo Ed); auto.
+    - apply (sp_old HP r c0 yo r (S c0) Eyo Ed); auto.
       + apply (ext_covers_char o yo ch); auto. lia.
       + apply no_shown_cover; auto.
-    - pose proof (sp_same HP r c0 Hr ltac:(lia) Ed) as Hsame. rewrite Eyo in Hsame.
-      apply (sp_hid HP r c0 yo); auto.
-      simpl in Hhn. rewrite <- Hsame, Hwo in Hhn. simpl in Hhn. apply negb_false_iff in Hhn. exact Hhn.
+    - (* the same wide character, shown before and hidden now: the character covering it now was
+         repainted, because it is new or has itself just been uncovered *)
+      pose proof (sp_same HP r c0 Hr ltac:(lia) Ed) as Hsame. rewrite Eyo in Hsame. symmetry in Hsame.
+      assert (Hhn0 : hidden o nw r c0 = true).
+      { simpl in Hhn. rewrite Hsame, Hwo in Hhn. simpl in Hhn. apply negb_false_iff in Hhn. exact Hhn. }
+      destruct c0 as [|c00]; [discriminate|].
+      assert (Hlw : left_wide o nw r (S c00) <> None) by (intros H; apply left_wide_hidden in H; congruence).
+      destruct (left_wide o nw r (S c00)) as [f|] eqn:El; [|congruence].
+      apply left_wide_some in El. destruct El as (c' & z & Hc' & Hz & Hwz & Hhz & _). inversion Hc'; subst c'.
+      destruct (is_wide_char o z Hwz) as (chz & Kz & Wz).
+      apply (sp_hid HP r c00 yo); auto.
+      destruct (dec r c00) eqn:Ed0; auto. exfalso.
+      pose proof (sp_same HP r c00 Hr ltac:(lia) Ed0) as Hs0. rewrite Hz in Hs0.
+      (* z is in old too; it was hidden there (else the character at S c00 would have been) *)
+      assert (Hho0 : hidden o old r c00 = true).
+      { simpl in Hho. rewrite Hs0, Hwz in Hho. simpl in Hho. apply negb_false_iff in Hho. exact Hho. }
+      assert (Hd0 : gget M r c00 = Some MDamaged).
+      { apply IH; auto; try lia. eapply wide_not_covered; eauto. lia. }
+      rewrite (sp_dmg HP r c00 z chz Hz Kz Hd0) in Ed0. discriminate.
   Qed.
 
   Section OneRow.
